@@ -34,6 +34,9 @@ open GridVerif.Proto GridVerif.AtomInterp
                                                -> ok <vec shape> <fvec data> | value-error
                         (`Gen.AtomInterp.interpolateLow`; harmonics and their derivatives from `Model/Harmonics.lean`)
   C09.gen_mol_low k <vec shape_0> <fvec out_0> …  -> ok <vec shape> <fvec> | index-error   (`Gen.AtomInterp.molInterpolateLow`)
+  C09.gen_mol_interp k <vec indices (k+1)> <fvec aim_weights> <fvec func_vals>
+                                               -> ok <vec shape> <fvec>   (`Gen.AtomInterp.molInterpolate` with an atomic routine that hands back
+                                                  the function values it is given: the sum over the atoms of `(func_vals * aim_weights)[indices[A]:indices[A+1]]`)
   C09.gen_defaults                              -> ok deriv dsph onlyrad deriv dsph onlyrads   (atomic, molecular signature)
   C09.gen_warns dsph onlyrad                    -> ok 0|1
   C09.reshape <vec shape> <ints dims>           -> ok <vec shape> | value-error   (primitive `pyReshape`)
@@ -267,6 +270,22 @@ def handleGen : List String → Option String
     let outs ← go k rest
     let funcs : List (Unit → Nat → Bool → Bool → Except Err (List Nat × List Float)) := outs.map fun o => fun _ _ _ _ => .ok o
     pure (showOut (Gen.AtomInterp.molInterpolateLow funcs () 0 false false))
+  | "C09.gen_mol_interp" :: k :: rest => do
+    let k ← pNat k
+    let (idx, rest) ← pVec pNat rest
+    let (aim, rest) ← pVec pFloat rest
+    let (f, rest) ← pVec pFloat rest
+    if rest ≠ [] ∨ idx.length ≠ k + 1 ∨ aim.length ≠ f.length ∨ idx.getLast?.getD 0 ≠ f.length then none else
+    let idxA := idx.toArray
+    let aimA := aim.toArray
+    let fA := f.toArray
+    let idxf := tabNA idxA
+    -- the stored atomic grid of atom A is recognised by its number of shells (= A here); the "atomic interpolant" is the slice it was given
+    let m : MGrid Float := { nAtoms := k, atom := fun A => { bareGrid ⟨0.0, 0.0, 0.0⟩ [] with nShells := A }, aidx := idxf, aim := tabA aimA }
+    let atomI : AGrid Float → (Nat → Float) → Unit → Nat → Bool → Bool → Except Err (List Nat × List Float) := fun g fa _ _ _ _ =>
+      let len := idxf (g.nShells + 1) - idxf g.nShells
+      .ok ([len], (List.range len).map fa)
+    pure (showOut (Gen.AtomInterp.molInterpolate m atomI (tabA fA) () 0 false false))
   | ["C09.gen_defaults"] =>
     let a := (Gen.AtomInterp.interpolateLowDefaults : Nat × Bool × Bool)
     let m := (Gen.AtomInterp.molInterpolateLowDefaults : Nat × Bool × Bool)
